@@ -18,10 +18,13 @@ from fractions import Fraction as Fr
 
 
 class Hom:
-    __slots__ = ("deg", "indep", "mask", "steady", "why")
+    __slots__ = ("deg", "indep", "mask", "steady", "why", "parts")
 
     def __init__(self, deg=(), indep=False, mask=None, steady=True,
-                 why=None):
+                 why=None, parts=None):
+        # for a mixed tag: the set of tags of the parts it was assembled
+        # from (frozenset of deg tuples), None when not known
+        self.parts = parts
         # deg: tuple of (var, n, m) sorted by var, zero entries dropped
         self.deg = deg
         self.indep = indep
@@ -175,12 +178,18 @@ def join(h1, h2, coord=False):
         return h2
     if h2.wild:
         return h1
+    def parts_of(h):
+        if h.mixed:
+            return h.parts
+        return frozenset([h.deg])
+    p1, p2 = parts_of(h1), parts_of(h2)
+    parts = (p1 | p2) if p1 is not None and p2 is not None else None
     if h1.mixed or h2.mixed:
-        return MIXED_COORD if (coord or (h1.mixed and h1.indep)
-                               or (h2.mixed and h2.indep)) else MIXED
+        return Hom("mixed", bool(coord or (h1.mixed and h1.indep)
+                                 or (h2.mixed and h2.indep)), parts=parts)
     if h1.same(h2):
         return Hom(h1.deg, h1.indep and h2.indep)
-    return MIXED_COORD if coord else MIXED
+    return Hom("mixed", bool(coord), parts=parts)
 
 
 def drop_rows(h):
@@ -339,6 +348,16 @@ class Tracker:
                     if one.invariant and any(m for v, n, m in other.deg):
                         # a scale-free quantity plus one that grows with
                         # the scale: no later step can undo that
+                        kind = "E1c"
+                    elif {v for v, n, m in ha.deg} == {v for v, n, m
+                                                      in hb.deg}:
+                        # both terms depend on the same representatives
+                        # only, but differently (t + sqrt(t*t - ..): the
+                        # first flips sign with the representative, the
+                        # second does not): the sum is not homogeneous in
+                        # them.  Sums over DIFFERENT representatives
+                        # (q - p, a11 - 2 a12 + a22) are left alone: a later
+                        # projection can make them meaningful
                         kind = "E1c"
                     self.event(it, kind,
                                f"sum of terms that scale differently "
